@@ -9,10 +9,10 @@ EXTENDS Timer, Json, IOUtils
 
 Log == ndJsonDeserialize(IOEnv.TRACE)
 
-VARIABLE l
-tvars == <<t, fired, outc, l>>
+VARIABLE vL
+tvars == <<vT, vFired, vOutc, vL>>
 
-Rec == Log[l]
+Rec == Log[vL]
 St(r) == [c |-> r.t.c, s |-> r.t.s, m |-> r.t.m, p |-> r.t.p, u |-> r.t.u, mi |-> r.t.mi, sc |-> r.t.sc]
 
 Matches(res) == /\ res.t   = St(Rec)
@@ -20,25 +20,25 @@ Matches(res) == /\ res.t   = St(Rec)
                 /\ res.out = Rec.out
                 /\ Horizon(res.t) = Rec.h
 
-Step(res) == Matches(res) /\ Apply(res) /\ l' = l + 1
+Step(res) == Matches(res) /\ Apply(res) /\ vL' = vL + 1
 
-IsEvent(e) == l <= Len(Log) /\ Rec.e = e
+IsEvent(e) == vL <= Len(Log) /\ Rec.e = e
 
 \* a new object straight from its constructor must already be in the reset state (C17 for the timer)
-TNew       == IsEvent("New")       /\ Step(ResetOp(t))
-TTick      == IsEvent("Tick")      /\ Step(TickOp(t))
-TTickEvent == IsEvent("TickEvent") /\ Step(TickEventOp(t))
-TRestart   == IsEvent("Restart")   /\ Step(RestartOp(t))
-TReset     == IsEvent("Reset")     /\ Step(ResetOp(t))
-TSkip      == IsEvent("Skip")      /\ Step(SkipOp(t, Rec.k))
-TSetMode   == IsEvent("SetMode")   /\ Step(SetMode(t, Rec.v))
-TSetPause  == IsEvent("SetPause")  /\ Step(SetPause(t, Rec.v))
-TSetUpd    == IsEvent("SetUpd")    /\ Step(SetUpd(t, Rec.v))
-TSetStart  == IsEvent("SetStart")  /\ Step(SetStart(t, Rec.v))
-TSetMirror == IsEvent("SetMirror") /\ Step(SetMirror(t, Rec.v))
-TSetScale  == IsEvent("SetScale")  /\ Step(Ok([t EXCEPT !.sc = Rec.v], 0))
+TNew       == IsEvent("New")       /\ Step(ResetOp(vT))
+TTick      == IsEvent("Tick")      /\ Step(TickOp(vT))
+TTickEvent == IsEvent("TickEvent") /\ Step(TickEventOp(vT))
+TRestart   == IsEvent("Restart")   /\ Step(RestartOp(vT))
+TReset     == IsEvent("Reset")     /\ Step(ResetOp(vT))
+TSkip      == IsEvent("Skip")      /\ Step(SkipOp(vT, Rec.k))
+TSetMode   == IsEvent("SetMode")   /\ Step(SetMode(vT, Rec.v))
+TSetPause  == IsEvent("SetPause")  /\ Step(SetPause(vT, Rec.v))
+TSetUpd    == IsEvent("SetUpd")    /\ Step(SetUpd(vT, Rec.v))
+TSetStart  == IsEvent("SetStart")  /\ Step(SetStart(vT, Rec.v))
+TSetMirror == IsEvent("SetMirror") /\ Step(SetMirror(vT, Rec.v))
+TSetScale  == IsEvent("SetScale")  /\ Step(Ok([vT EXCEPT !.sc = Rec.v], 0))
 
-TraceInit == Init /\ l = 1
+TraceInit == Init /\ vL = 1
 TraceNext == TNew \/ TTick \/ TTickEvent \/ TRestart \/ TReset \/ TSkip \/ TSetMode \/ TSetPause
              \/ TSetUpd \/ TSetStart \/ TSetMirror \/ TSetScale
 TraceSpec == TraceInit /\ [][TraceNext]_tvars
@@ -46,7 +46,7 @@ TraceSpec == TraceInit /\ [][TraceNext]_tvars
 \* the properties of the property layer, re-evaluated on every state of the observed execution
 \* at full width is not possible for the k-quantified ones (k ranges over 2^32 values); the
 \* per-tick rules are cheap and are checked on every observed state.
-ObservedTickRules == t.sc = 0 => (TickRules /\ EventRules)
+ObservedTickRules == vT.sc = 0 => (TickRules /\ EventRules)
 
 TraceAccepted ==
     /\ PrintT(<<"TRACE_MATCHED", TLCGet("stats").diameter - 1, Len(Log)>>)
